@@ -126,6 +126,7 @@ def run_scenario(spec: dict) -> dict:
             cb("a.step", step_dur, body)
             if "pacing" in result:
                 result["pacing"]["steps"][-1][2] = float(sched.now).hex()
+                result["pacing"]["steps"][-1].append(float(tc.perf_counter()).hex())     # system time at the end of the step
             return None
 
         def save_state(self, path):
@@ -433,6 +434,7 @@ def run_scenario(spec: dict) -> dict:
                 def adjust_seen():
                     r = orig_adjust()
                     pacing["after_adjust"].append(float(sched.now).hex())
+                    pacing.setdefault("after_adjust_sys", []).append(float(tc.perf_counter()).hex())
                     return r
                 inter.setup, adj[0].adjust = setup_seen, adjust_seen
             else:
